@@ -179,7 +179,7 @@ func dischargeBounds(r *Run, fn *ssa.Function, rule string, reviewed []reviewedB
 				continue
 			}
 			nontrivial = true
-			if !EntailsLE(facts, g.a, g.b) {
+			if !EntailsLE(facts, g.a, g.b) && !fa.entailsPhiSplit(ob.In, facts, g.a, g.b, 2) {
 				failed = append(failed, g.text)
 			}
 		}
@@ -207,3 +207,67 @@ func dischargeBounds(r *Run, fn *ssa.Function, rule string, reviewed []reviewedB
 }
 
 var _ = token.NoPos
+
+// entailsPhiSplit proves a <= b by case analysis on one phi atom of the goal: on the paths
+// entering the phi's block through edge i the phi equals its i-th operand and the edge's
+// branch conditions hold (in addition to the facts valid at the obligation on every path).
+func (fa *FA) entailsPhiSplit(at ssa.Instruction, facts []Fact, a, b *Lin, depth int) bool {
+	if depth == 0 {
+		return false
+	}
+	goal := a.Sub(b)
+	for k, s := range goal.Atoms {
+		_ = k
+		var phi *ssa.Phi
+		if s.Op == "phi" {
+			phi, _ = s.V.(*ssa.Phi)
+		}
+		if phi == nil {
+			// len(phi) etc.: look one level down
+			if (s.Op == "len" || s.Op == "cap") && len(s.Args) == 1 && s.Args[0].Op == "phi" {
+				phi, _ = s.Args[0].V.(*ssa.Phi)
+				if phi != nil {
+					// case split on the slice-valued phi: len(phi) == len(edge value)
+					ok := true
+					for i, e := range phi.Edges {
+						ef := fa.edgeFacts(phi.Block().Preds[i], phi.Block())
+						var el *Lin
+						if s.Op == "len" {
+							el = fa.linSym(lenOf(fa.Sym(e)), 0)
+						} else {
+							el = fa.linSym(capOf(fa.Sym(e)), 0)
+						}
+						eq := []Fact{le(linAtom(s), el, "phi edge"), le(el, linAtom(s), "phi edge")}
+						all := fa.closeFacts(append(append(append([]Fact{}, facts...), ef...), eq...), el)
+						if !EntailsLE(all, a, b) && !fa.entailsPhiSplit(at, all, a, b, depth-1) {
+							ok = false
+							break
+						}
+					}
+					if ok {
+						return true
+					}
+				}
+			}
+			continue
+		}
+		if !(phi.Block() == at.Block() || phi.Block().Dominates(at.Block())) {
+			continue
+		}
+		ok := true
+		for i, e := range phi.Edges {
+			ef := fa.edgeFacts(phi.Block().Preds[i], phi.Block())
+			el := fa.Lin(e)
+			eq := []Fact{le(linAtom(s), el, "phi edge"), le(el, linAtom(s), "phi edge")}
+			all := fa.closeFacts(append(append(append([]Fact{}, facts...), ef...), eq...), el)
+			if !EntailsLE(all, a, b) && !fa.entailsPhiSplit(at, all, a, b, depth-1) {
+				ok = false
+				break
+			}
+		}
+		if ok {
+			return true
+		}
+	}
+	return false
+}
